@@ -154,8 +154,10 @@ static void deliver_all(TasmanianSparseGrid &g, const Ref &R, int count){
     g.loadConstructedPoints(x, y);
 }
 
-static Ref build_ref(const Conf &conf){
+// with_reference = false: only the reference model (no construction call on the library); true: also the one-batch reference surrogates
+static Ref build_ref(const Conf &conf, bool with_reference = true){
     Ref R; R.conf = conf; const Cfg &t = conf.target; R.d = t.dims; R.outs = t.outs; R.fam = t.fam; R.rule = t.rule; R.order = t.order;
+    if (R.fam == F_LOCALP && R.rule == rule_semilocalp && R.order < 2) R.rule = rule_localp; // below order 2 (incl. -1) the library builds the localp hierarchy for rule_semilocalp (getRule() reports localp)
     try{
         TasmanianSparseGrid tg0; std::vector<Pt> P; if (conf.cls != "points"){ make(tg0, t); P = split(tg0.getPoints(), R.d); }
         R.U = P; R.nT = (int) P.size(); for(auto &p : conf.orphans) R.U.push_back(p); R.n = (int) R.U.size(); for(auto &p : conf.completion) R.U.push_back(p); R.nu = (int) R.U.size();
@@ -185,6 +187,7 @@ static Ref build_ref(const Conf &conf){
         // probes (user coordinates, interior, not nodes)
         const double base[6][2] = {{0.3127, -0.6181}, {-0.9371, 0.8713}, {0.1113, 0.4519}, {-0.4337, -0.2971}, {0.7411, 0.0917}, {-0.0631, -0.8853}};
         for(int p=0;p<6;p++) for(int j=0;j<R.d;j++){ double u = base[p][j % 2]; double x; if (t.fam == F_FOURIER){ u = 0.5 * (u + 1.0); x = t.ta.empty() ? u : t.ta[j] + u * (t.tb[j] - t.ta[j]); } else x = t.ta.empty() ? u : 0.5 * (t.tb[j] - t.ta[j]) * u + 0.5 * (t.tb[j] + t.ta[j]); R.probes.push_back(x); }
+        if (!with_reference) return R;
         // reference surrogates: one loadConstructedPoints call on a fresh host grid
         { TasmanianSparseGrid g; make(g, conf.host); g.beginConstruction(); deliver_all(g, R, R.n); if (g.getNumLoaded() > 0) g.evaluateBatch(R.probes, R.yref); }
         if (R.nu > R.n){ TasmanianSparseGrid g; make(g, conf.host); g.beginConstruction(); deliver_all(g, R, R.nu); if (g.getNumLoaded() > 0) g.evaluateBatch(R.probes, R.yrefC); }
@@ -466,7 +469,7 @@ static std::vector<Conf> lattice(){
         auto orph = [&](Cfg host, Cfg target, Cfg big, size_t norph){ // orphans = up to 'norph' points of big \ target that the reference model does not admit, completion = the rest
             std::vector<Pt> extra; int nt = 0; try{ extra = minus(points_of(big), points_of(target)); nt = npoints(target); }catch(std::exception &){ return; }
             if (extra.size() < 2 || nt + extra.size() > 12) return;
-            Conf probe; probe.cls = "orphan"; probe.host = host; probe.target = target; probe.orphans = extra; Ref P = build_ref(probe); if (!P.build_error.empty()) return;
+            Conf probe; probe.cls = "orphan"; probe.host = host; probe.target = target; probe.orphans = extra; Ref P = build_ref(probe, false); if (!P.build_error.empty()) return;
             std::vector<Pt> o, c; unsigned chosen = (1u << nt) - 1;
             for(size_t e = extra.size(); e-- > 0; ){ unsigned lo, hi, m = chosen | (1u << (nt + e)); P.admissible(m, lo, hi); if (o.size() < norph && hi == (1u << nt) - 1){ o.push_back(extra[e]); chosen = m; } else c.push_back(extra[e]); }
             if (o.empty() || c.empty()) return;
@@ -509,10 +512,21 @@ static double cost(const Ref &R){ double c = 1; for(int i=2;i<=R.n;i++) c *= i; 
 
 static void run_unit(const Conf &conf){
     double t0 = vf::now(); std::string unit = conf.name();
-    Ref R = build_ref(conf);
+    Ref R = build_ref(conf, false);
     if (!R.build_error.empty()){ vf::emit(vf::J().s("t","error").s("what", unit + ": " + R.build_error)); return; }
     Shm *sh = (Shm*) mmap(nullptr, sizeof(Shm), PROT_READ | PROT_WRITE, MAP_SHARED | MAP_ANONYMOUS, -1, 0);
     if (sh == MAP_FAILED){ vf::emit(vf::J().s("t","error").s("what","mmap failed")); return; }
+    // the one-batch reference runs construction code as well: try it in a child first so that a crash becomes an outcome of this unit
+    { Seq id; id.perm.resize(R.n); std::iota(id.perm.begin(), id.perm.end(), 0);
+      vf::Outcome o = vf::run_child([&](int fd){ Ref T = build_ref(conf, true); vf::wr(fd, "ok\n"); }, 120.0);
+      if (o.kind != vf::Outcome::OK){
+          std::string cls = (o.kind == vf::Outcome::SANITIZER) ? o.sanitizer_class() : o.describe(); std::string sig = signature(R, id, "crash:" + cls, false);
+          vf::violation(sig, unit, id.json(R), o.describe() + " while loading the whole target set with one loadConstructedPoints call: " + o.err.substr(0, 1500));
+          vf::emit(vf::J().s("t","outcome").s("key", sig).i("n", 1));
+          vf::emit(vf::J().s("t","unit").s("unit", unit).i("states", 0).i("transitions", 1).i("execs", 1).i("evals", 1).i("distinct", 1).i("n", R.n).i("violations", 1).n("wall", vf::now() - t0).b("complete", true));
+          munmap(sh, sizeof(Shm)); return; }
+      R = build_ref(conf, true);
+      if (!R.build_error.empty()){ vf::emit(vf::J().s("t","error").s("what", unit + ": " + R.build_error)); munmap(sh, sizeof(Shm)); return; } }
     if (!R.ref_mismatch.empty()){ Seq s; s.perm.resize(R.n); std::iota(s.perm.begin(), s.perm.end(), 0); s.mask = 0; std::string sig = "C09:one-batch-construction-differs-from-loadNeededValues:" + R.famtag; sh->nviol++; sh->bump(sig); vf::violation(sig, unit, s.json(R), R.ref_mismatch); }
     bool with_rt = thorough() && conf.rt && R.n <= 5;
     long total = 1L << (R.n - 1); for(int i=2;i<=R.n;i++) total *= i;   // steps = permutations x compositions (each step runs every query mode / round-trip variant)
@@ -548,8 +562,12 @@ int main(int argc, char **argv){
     double dl = A.getd("--deadline", 0); if (dl > 0) vf::g_deadline = vf::now() + dl;
     if (A.has("--replay")){
         std::string v = vf::slurp(A.get("--replay")); std::string cs = vf::jget(v, "case"); std::string tier = vf::jget(v, "tier"); if (!tier.empty()) g_tier = tier;
-        Conf conf = Conf::parse(vf::jget(cs, "conf")); Ref R = build_ref(conf);
+        Conf conf = Conf::parse(vf::jget(cs, "conf")); Ref R = build_ref(conf, false);
         if (!R.build_error.empty()){ vf::emit(vf::J().s("t","error").s("what", R.build_error)); return 0; }
+        { Seq id; id.perm.resize(R.n); std::iota(id.perm.begin(), id.perm.end(), 0);
+          vf::Outcome o = vf::run_child([&](int fd){ Ref T = build_ref(conf, true); vf::wr(fd, "ok\n"); }, 120.0);
+          if (o.kind != vf::Outcome::OK){ std::string cls = (o.kind == vf::Outcome::SANITIZER) ? o.sanitizer_class() : o.describe(); vf::violation(signature(R, id, "crash:" + cls, false), "replay", id.json(R), o.describe() + ": " + o.err.substr(0, 1500)); vf::emit(vf::J().s("t","summary").s("replay", o.describe())); return 0; }
+          R = build_ref(conf, true); if (!R.build_error.empty()){ vf::emit(vf::J().s("t","error").s("what", R.build_error)); return 0; } }
         Seq s; for(long x : vf::jints(vf::jget(cs, "perm"))) s.perm.push_back((int) x); s.mask = (unsigned) atol(vf::jget(cs, "mask").c_str()); s.q = atoi(vf::jget(cs, "q").c_str()); s.rtpos = atoi(vf::jget(cs, "rtpos").c_str()); s.rtfmt = atoi(vf::jget(cs, "rtfmt").c_str());
         if ((int) s.perm.size() != R.n){ vf::emit(vf::J().s("t","error").s("what","replay: permutation length does not match the configuration")); return 0; }
         if (!R.ref_mismatch.empty()) vf::violation("C09:one-batch-construction-differs-from-loadNeededValues:" + R.famtag, "replay", s.json(R), R.ref_mismatch);
@@ -561,7 +579,7 @@ int main(int argc, char **argv){
         vf::emit(vf::J().s("t","summary").s("replay", o.describe())); return 0;
     }
     auto confs = lattice();
-    if (A.has("--list")){ for(auto &c : confs){ Ref R = build_ref(c); printf("%-90s n=%d nu=%d %s %s\n", c.name().c_str(), R.n, R.nu, R.build_error.c_str(), R.ref_mismatch.c_str()); } return 0; }
+    if (A.has("--list")){ for(auto &c : confs){ Ref R = build_ref(c, false); printf("%-90s n=%d nu=%d %s %s\n", c.name().c_str(), R.n, R.nu, R.build_error.c_str(), R.ref_mismatch.c_str()); } return 0; }
     std::string only = A.get("--only");
     if (!only.empty()){ std::vector<Conf> f; for(auto &c : confs) if (c.name().find(only) != std::string::npos) f.push_back(c); confs = f; }
     // most expensive units first (dynamic distribution then balances the tail)
